@@ -95,8 +95,22 @@ Fixpoint s_attrs_eqb (names : list string) (a b : sconf) : bool :=
       end
   end.
 
+(* serialisation of Python's None (harness/c15_real.py: enc(None) = b'N') *)
+Definition enc_none : bytes := [78].
+
+(* getattr(s, n, None) *)
+Definition s_val (s : sconf) (n : string) : fval :=
+  match assoc n (s_attrs s) with Some v => v | None => FVal enc_none end.
+
+Fixpoint s_dflt_eqb (names : list string) (a b : sconf) : bool :=
+  match names with
+  | [] => true
+  | n :: r => fval_eqb (s_val a n) (s_val b n) && s_dflt_eqb r a b
+  end.
+
 Definition s_eq_method (self other : sconf) : bool :=
-  isinstance (s_class other) sock_eq_isinstance && s_attrs_eqb sock_eq_attrs self other.
+  isinstance (s_class other) sock_eq_isinstance && s_attrs_eqb sock_eq_attrs self other
+  && s_dflt_eqb sock_eq_attrs_dflt self other.
 
 Definition s_py_eq (x y : sconf) : bool := py_dispatch s_class s_eq_method x y.
 
